@@ -128,6 +128,17 @@ def _cat_pd(draw, dt):
 
 @st.composite
 def _recipe(draw, tier, focus):
+    if "batch_repeat_nested_below_head" not in _open_triggers():
+        return draw(_recipe1(tier, focus))
+    for _ in range(4):
+        r = draw(_recipe1(tier, focus))
+        if not _recipe_tri_solve_over_repeat(r):
+            return r
+    return gen.mk_dense(draw, gen.Cfg(dt="f64"), "pd", 3, 3, (), 1)
+
+
+@st.composite
+def _recipe1(draw, tier, focus):
     ex = _exclusions()
     trig = _open_triggers()
     max_depth = 3  # both tiers: deeper trees only add failures of the factors' own root / eigen decompositions (C02 / C06)
@@ -900,9 +911,19 @@ def _t_cg_budget(case):
     return _iterative(case) and _wants_logdet(case) and cell.get("max_cg_iterations") == n and cell.get("max_lanczos_quadrature_iterations") == n and not cell.get("skip_logdet_forward")
 
 
+def _recipe_tri_solve_over_repeat(r):
+    """A TriangularLinearOperator over a BatchRepeatLinearOperator gets solved: an explicit BatchRepeat below the head, or a
+    Kronecker product whose factors have different batch shapes (the constructor expands the smaller ones by repeat())."""
+    if any(x["op"] == "BatchRepeat" for c in R.children(r) for x in R.walk(c)):
+        return True
+    for x in R.walk(r):
+        if x["op"] in ("Kronecker", "KroneckerTri", "KroneckerDiag") and len({tuple(refmodel.shape(a)[:-2]) for a in x["args"]}) > 1:
+            return True
+    return False
+
+
 def _t_batchrepeat_nested(case):
-    r = case["recipe"]
-    return any(x["op"] == "BatchRepeat" for c in R.children(r) for x in R.walk(c))
+    return _recipe_tri_solve_over_repeat(case["recipe"])
 
 
 def _t_block_kron(case):
